@@ -845,6 +845,19 @@ impl<'ctx> ByteCompiler<'ctx> {
         BindingKind::Stack(index)
     }
 
+    /// Resolves the binding that an assignment writes to.
+    ///
+    /// Unlike a declaration, an assignment never creates the register of a local lexical binding:
+    /// until its declaration has been compiled the binding is uninitialized, and the
+    /// `BindingKind::Local(None)` returned here makes the access throw a `ReferenceError`.
+    pub(crate) fn assignment_binding(&mut self, binding: IdentifierReference) -> BindingKind {
+        if binding.is_lexical() && binding.local() {
+            self.get_binding(&binding)
+        } else {
+            self.insert_binding(binding)
+        }
+    }
+
     #[inline]
     #[must_use]
     pub(crate) fn push_function_to_constants(&mut self, function: Gc<CodeBlock>) -> u32 {
@@ -880,7 +893,7 @@ impl<'ctx> ByteCompiler<'ctx> {
             }
             BindingOpcode::SetName => match self.lexical_scope.set_mutable_binding(name.clone()) {
                 Ok(binding) => {
-                    let index = self.insert_binding(binding);
+                    let index = self.assignment_binding(binding);
                     self.emit_binding_access(BindingAccessOpcode::SetName, &index, value);
                 }
                 Err(BindingLocatorError::MutateImmutable) => {
@@ -1614,7 +1627,7 @@ impl<'ctx> ByteCompiler<'ctx> {
                 if is_lexical {
                     match self.lexical_scope.set_mutable_binding(name.clone()) {
                         Ok(binding) => {
-                            let index = self.insert_binding(binding);
+                            let index = self.assignment_binding(binding);
                             self.emit_binding_access(BindingAccessOpcode::SetName, &index, value);
                         }
                         Err(BindingLocatorError::MutateImmutable) => {
